@@ -59,6 +59,15 @@ def make_case(rng, kind, t, start=None, exhaustive=None):
             while e[1] in seen:
                 e[1] += rng.choice("abz")
             seen.add(e[1])
+    typed = []
+    if exhaustive is None and rng.random() < 0.2 and len(labs) >= 2:
+        # names that are not strings: numbers/booleans that compare (and hash) equal but print differently
+        pool = ["1.0", "True", "1", "0.0", "-0.0", "False", "0", "2.0", "2", "None"]
+        rng.shuffle(pool)
+        for e, v in zip(rng.sample(names, min(len(names), rng.choice([2, 3, 4]))), pool):
+            if kind != "dot" or v not in [x[1] for x in names]:
+                e[1] = v
+                typed.append(e[0])
     start = t[0] if start is None else start
     sub = gen.tree_labels(_sub(t, start))
     if exhaustive is not None:
@@ -74,6 +83,8 @@ def make_case(rng, kind, t, start=None, exhaustive=None):
          "graph": rng.choice([None, None, "graph"]), "gname": rng.choice([None, None, "G1"]),
          "defaults": rng.random() < 0.3, "tofile": rng.random() < 0.1, "cls": rng.choice(["plain", "plain", "eq", "light", "falsy"]),
          "partial": rng.choice([0, 0, 0, 1, 2, 3])}
+    if typed:
+        c["typed"] = typed
     if c["iterations"] == 2 and rng.random() < 0.5:
         # the exporter's maxlevel attribute is changed between the iterations: the admitted set grows or shrinks,
         # identifiers handed out earlier stay valid and distinct
@@ -126,6 +137,21 @@ def generate(kinds, tier, rng):
             for start in gen.tree_labels(t):
                 for kind in kinds:
                     yield make_case(rng, kind, t, start)
+    # scale: hundreds of nodes / lines (chunked writers, caches and cut-offs), also through the file writers
+    for sh in gen.big_shapes(rng, tier, 450):
+        t = gen.labelled(sh, rng, True)
+        dl = gen.deep_labels(t)
+        for kind in kinds:
+            c = make_case(rng, kind, t, rng.choice([t[0], t[0], dl[len(dl) // 3]]))
+            c["tofile"] = rng.random() < 0.7
+            c["options"] = rng.choice([None, [], ["rankdir=LR;"]])
+            yield c
+            # the whole tree, unrestricted, through the file writer (hundreds of lines)
+            c = make_case(rng, kind, t, t[0], ([], [], None))
+            c["tofile"] = True
+            c["iterations"] = 1
+            c["partial"] = 0
+            yield c
     for _ in range(300 if tier == "quick" else 4000):
         t = gen.labelled(gen.random_shape(rng, rng.randrange(4, 13 if tier == "quick" else 30)), rng, True)
         yield make_case(rng, rng.choice(kinds), t, rng.choice(gen.tree_labels(t)))
